@@ -154,6 +154,8 @@ def concrete(t: T, env: dict, funcs: dict | None = None):
                     return len(ev(args[0]))
                 if n == "builtins.callable":
                     return callable(ev(args[0]))
+                if n == "builtins.bool" and len(args) == 1 and not kwargs:
+                    return bool(ev(args[0]))
                 if n == "builtins.set":
                     return set(ev(args[0])) if args else set()
                 if n == "builtins.abs":
